@@ -415,19 +415,21 @@ def aofTimeOf (db : DB) (c : Cmd) : Nat :=
   else if c.eflag &&& 0x1300 == EF_PARCENT_AOF then (c.expried * 3 / 10) % 256
   else db.aofTime
 
+/-- the record gets a (new) entry in the timeout wheel / the expiry wheel -/
+def Rec.armT (a : Nat × Sched) (r : Rec) : Rec := { r with timeouted := false, timeoutT := a.1, tSched := some a.2 }
+def Rec.armE (a : Nat × Sched) (r : Rec) : Rec := { r with expried := false, expT := a.1, eSched := some a.2 }
+
 /-- `AddTimeOut(lock)` -/
 def W.addTimeOut (w : W) (rid : Nat) : W :=
   let r := w.k.getR rid
-  let a := wheelAdd w.db.tCheck w.db.seq r.timeoutT r.tChecked
   { w with db := { w.db with seq := w.db.seq + 1 },
-           k := w.k.modRec rid (fun r => { r with timeouted := false, timeoutT := a.1, tSched := some a.2 }) }
+           k := w.k.modRec rid (Rec.armT (wheelAdd w.db.tCheck w.db.seq r.timeoutT r.tChecked)) }
 
 /-- the scheduling half of `AddExpried(lock)` -/
 def W.schedExpried (w : W) (rid : Nat) : W :=
   let r := w.k.getR rid
-  let a := wheelAdd w.db.eCheck w.db.seq r.expT r.eChecked
   { w with db := { w.db with seq := w.db.seq + 1 },
-           k := w.k.modRec rid (fun r => { r with expried := false, expT := a.1, eSched := some a.2 }) }
+           k := w.k.modRec rid (Rec.armE (wheelAdd w.db.eCheck w.db.seq r.expT r.eChecked)) }
 
 /-- `AddExpried(lock)`: schedule, and journal the hold (once per depth level) when it is old enough -/
 def W.addExpried (w : W) (rid : Nat) : W :=
@@ -450,11 +452,15 @@ def W.ref (w : W) (rid : Nat) : W := w.modR rid (fun r => { r with refCount := r
 
 /-! ### granting -/
 
+/-- a `Lock` object as `GetOrNewLock` initialises it -/
+def newRec (rid now : Nat) (c : Cmd) (data : Option Bytes) : Rec :=
+  { rid := rid, cmd := c, data := data, conn := c.conn, startT := now, timeoutT := timeoutDeadline now c }
+
+def Key.addRec (k : Key) (r : Rec) : Key := { k with recs := k.recs ++ [r], refCount := k.refCount + 1 }
+
 /-- `GetOrNewLock` -/
 def W.newLock (w : W) (c : Cmd) (data : Option Bytes) : W × Nat :=
-  let rid := w.db.nextRid
-  let r : Rec := { rid := rid, cmd := c, data := data, conn := c.conn, startT := w.db.now, timeoutT := timeoutDeadline w.db.now c }
-  ({ w with db := { w.db with nextRid := rid + 1 }, k := { w.k with recs := w.k.recs ++ [r], refCount := w.k.refCount + 1 } }, rid)
+  ({ w with db := { w.db with nextRid := w.db.nextRid + 1 }, k := w.k.addRec (newRec w.db.nextRid w.db.now c data) }, w.db.nextRid)
 
 /-- what `AddLock` does to the record -/
 def addLockF (db : DB) (k : Key) (r : Rec) : Rec :=
@@ -746,10 +752,19 @@ def opUnlock (db : DB) (c : Cmd) (data : Option Bytes) : DB × List Reply :=
 def W.dropT (w : W) (rid : Nat) : W := (w.modR rid (fun r => { r with tSched := none })).unrefCheck rid
 def W.dropE (w : W) (rid : Nat) : W := (w.modR rid (fun r => { r with eSched := none })).unrefCheck rid
 
+/-- In this model a wheel entry is a field of the record it points to, so "the sweeper popped an entry" presupposes that the record
+still exists and still carries the entry. That is a property of the REPRESENTATION (in the Go code an entry cannot leave a slot
+except through the sweeper), checked explicitly: if it ever failed the model raises its error flag (the driver prints `panic`,
+which no run of the real code produces) instead of continuing with a made-up record. -/
+def Key.hasT (k : Key) (rid : Nat) : Bool := k.recs.any (·.rid == rid) && (k.getR rid).tSched.isSome
+def Key.hasE (k : Key) (rid : Nat) : Bool := k.recs.any (·.rid == rid) && (k.getR rid).eSched.isSome
+def W.wheelBroken (w : W) : W := { w with db := { w.db with panicked := true } }
+
 /-- `doTimeOut(lock)` for the record the sweeper holds a reference to -/
 def W.fireTimeout (w : W) (rid : Nat) : W :=
   let r := w.k.getR rid
-  if r.timeouted then w.dropT rid
+  if !w.k.hasT rid then w.wheelBroken
+  else if r.timeouted then w.dropT rid
   else
     let w5 := (((((w.modR rid (fun r => { r with timeouted := true })).modK (·.settleWait)).ctr
       (fun y => { y with waitCount := y.waitCount - 1 })).dropT rid).ctr (fun y => { y with timeoutedCount := y.timeoutedCount + 1 }))
@@ -765,7 +780,8 @@ def deferExpiry (db : DB) (r : Rec) : Bool := !db.leader && r.isAof && db.now - 
 /-- `doExpried(lock)` -/
 def W.fireExpire (w : W) (rid : Nat) : W :=
   let r := w.k.getR rid
-  if r.expried then w.dropE rid
+  if !w.k.hasE rid then w.wheelBroken
+  else if r.expried then w.dropE rid
   else if deferExpiry w.db r then
     -- re-armed 30 s ahead (the popped entry is pushed again), no notice, the hold stays
     (w.modR rid (fun r => { r with expT := w.db.now + 30 })).addExpried rid
@@ -801,13 +817,15 @@ def eEntries (db : DB) (p : Sched → Bool) : List Ent :=
 and re-arm; due ⇒ collect (`none` = collected) -/
 def W.visitTimeout (w : W) (slot : Bool) (rid : Nat) : Option W :=
   let r := w.k.getR rid
-  if r.timeouted then some (w.dropT rid)
+  if !w.k.hasT rid then some w.wheelBroken
+  else if r.timeouted then some (w.dropT rid)
   else if slot && r.timeoutT > w.db.now then some ((w.modR rid (fun r => { r with tChecked := r.tChecked + 1 })).addTimeOut rid)
   else none
 
 def W.visitExpire (w : W) (slot : Bool) (rid : Nat) : Option W :=
   let r := w.k.getR rid
-  if r.expried then some (w.dropE rid)
+  if !w.k.hasE rid then some w.wheelBroken
+  else if r.expried then some (w.dropE rid)
   else if slot && r.expT > w.db.now then some ((w.modR rid (fun r => { r with eChecked := r.eChecked + 1 })).addExpried rid)
   else none
 
